@@ -226,6 +226,19 @@ func init() {
 		}
 		return callResult{val: out, st: st}
 	}
+	// scrypt.Key(password, salt, N, r, p, keyLen): keyLen bytes that are a function of password and salt
+	m["golang.org/x/crypto/scrypt.Key"] = func(fr *Frame, fn *ssa.Function, args []Value, pc *Term, st *State, pos token.Pos, resT types.Type) callResult {
+		used(fr, "scrypt.Key (keyLen bytes, a function of password and salt; error arbitrary)")
+		ex := fr.ex
+		pw, salt := args[0].(SliceV), args[1].(SliceV)
+		kl := SignExtTo64(args[5].(IntV).T, types.Typ[types.Int])
+		out := ex.allocSlice(st, types.Typ[types.Uint8], kl, kl, pc, "scrypt")
+		arr := ex.sliceArr(st, out, 0, SBV(8))
+		ex.setSliceArr(st, out, 0, CopyArr(arr, BV(0, 64), ufBytes("scrypt", ex.fp(st, pw), ex.fp(st, salt)), BV(0, 64), kl))
+		okB := Fresh("scrypt.ok", SBool)
+		res := MergeV(okB, out, ZeroV(types.NewSlice(types.Typ[types.Uint8])))
+		return callResult{val: TupleV{[]Value{res, ex.errValue(okB, "scrypt")}}, st: st}
+	}
 	m["crypto/hmac.New"] = func(fr *Frame, fn *ssa.Function, args []Value, pc *Term, st *State, pos token.Pos, resT types.Type) callResult {
 		used(fr, "hmac.New/Write/Sum (MAC is a function of key and message)")
 		ex := fr.ex
@@ -440,6 +453,15 @@ func (ex *Exec) cryptoSpec(name string, arg func(i int) Value, env *SpecEnv) (Va
 		}
 		d := arg(1).(ArrV)
 		return BoolV{Eq(Select(st.get("ghost|"+k+".ad", SArr(SBV(64), SFP)), idx(0)), canonFP(d.A, BV(0, 64), BV(32, 64), 0))}, true
+	case "isscrypt":
+		// isscrypt(out, pw): out holds the 32 bytes scrypt(pw, salt = pw)
+		out, pw := arg(0).(SliceV), arg(1).(SliceV)
+		want := ufBytes("scrypt", ex.fp(st, pw), ex.fp(st, pw))
+		eq := Eq(out.Len, BV(32, 64))
+		for i := 0; i < 32; i++ {
+			eq = And(eq, Eq(ex.elemLoad(st, out, BV(uint64(i), 64)).(IntV).T, Select(want, BV(uint64(i), 64))))
+		}
+		return BoolV{eq}, true
 	case "sha256catpub":
 		// sha256catpub(d, key): SHA-256 of d followed by the compressed serialisation of key
 		d := arg(0).(ArrV)
